@@ -13,7 +13,7 @@ RULE = ('cases: recipes (plain-data construction programs) for values: None/Elli
         'points, samples, solver methods. (pairs) value vs one structural mutation of it (regrouped nesting, container kind, leaf type confusion, same bytes under another '
         'dtype/shape, str vs bytes, multiplicity, other class) or vs an alternative construction route of the same value (keyword vs positional, int32 vs int64 arraydata input, '
         'numpy vs python scalar, insertion order of sets/dicts/multisets, pickle round trip): nutils_hash equal <=> reference canonical forms equal. (process) batches of recipes '
-        're-hashed in a subprocess with another PYTHONHASHSEED. (interning) histories of create/drop/gc/recreate/unpickle on interned types: equal recipes => same live object, hash never changes. '
+        're-hashed in a subprocess with another PYTHONHASHSEED. (lrucache) types.lru_cache called with generated views (transposes, strided and reversed slices, rows, columns, blocks) of frozen and writable arrays, other hashable arguments and replaced buffers: the result is always that of the function. (interning) histories of create/drop/gc/recreate/unpickle on interned types: equal recipes => same live object, hash never changes. '
         'non-trivial: pair differs by exactly one structural mutation or is an alternative route, process boundary crossed, or interning history with a drop+gc+recreate; distinct = case hash')
 ASSUMPTIONS = ['the reference canonical form canon() in this module decides which values "can behave differently"', 'type objects other than builtin scalar types are outside the documented domain of nutils_hash and are not generated',
                'python-equal arguments of different type (1/True/1.0) given to an interning constructor are recorded, not asserted (DESIGN.md C17 scope note)']
@@ -632,10 +632,76 @@ def check_interning(case, rec):
     rec.label('interning-history')
 
 
+
+# ---- types.lru_cache: keyed on the buffer an array argument views, not on its value ------------------------------------------
+
+@st.composite
+def lru_cases(draw, tier):
+    n = draw(st.integers(2, 5))
+    vals = [draw(st.integers(-9, 9)) for _ in range(n * n)]
+    views = []
+    for _ in range(draw(st.integers(2, 5))):
+        kind = draw(st.sampled_from(['full', 'T', 'head', 'step', 'row', 'col', 'flat-head', 'flat-step', 'rev', 'block']))
+        views.append(dict(kind=kind, m=draw(st.integers(1, n)), k=draw(st.integers(1, 3)), i=draw(st.integers(0, n - 1))))
+    calls = [dict(view=draw(st.integers(0, len(views) - 1)), extra=draw(st.sampled_from([1, 2, 2., True, 'a'])), base=draw(st.integers(0, 1))) for _ in range(draw(st.integers(2, 10)))]
+    return dict(n=n, vals=vals, views=views, calls=calls, writeable=draw(st.integers(0, 5)) == 0, regen=draw(st.booleans()))
+
+
+def _lru_view(a, v):
+    n = a.shape[0]; k = v['kind']
+    if k == 'full': return a
+    if k == 'T': return a.T
+    if k == 'head': return a[:v['m']]
+    if k == 'step': return a[::v['k']][:v['m']]
+    if k == 'row': return a[v['i']]
+    if k == 'col': return a[:, v['i']]
+    if k == 'flat-head': return a.reshape(-1)[:v['m'] * n]
+    if k == 'flat-step': return a.reshape(-1)[::v['k'] + 1][:v['m']]
+    if k == 'rev': return a[::-1]
+    return a[:v['m'], :v['k']]
+
+
+def check_lru(case, rec):
+    import gc
+    from nutils import types
+    n = case['n']
+    def func(arr, extra):
+        return tuple((float(x) * 2, str(extra), type(extra).__name__) for x in numpy.asarray(arr).ravel()) + (arr.shape,)
+    cached = types.lru_cache(func)
+    def mkbase(shift):
+        a = numpy.array(case['vals'], dtype=float).reshape(n, n) + shift
+        if not case['writeable']: a.flags.writeable = False
+        return a
+    bases = [mkbase(0), mkbase(100)]
+    distinct = set()
+    for ci, c in enumerate(case['calls']):
+        a = bases[c['base']]
+        v = _lru_view(a, case['views'][c['view']])
+        if case['writeable'] and ci % 2:
+            a[0, 0] += 1      # a writable array is never cached: the next call must see the change
+        want = func(v, c['extra'])
+        try:
+            got = cached(v, c['extra'])
+        except Exception as e:
+            raise Violation('lru-raised', f'call {ci} with view {case["views"][c["view"]]} of a {n}x{n} array: {type(e).__name__}: {str(e)[:200]}', where='lru:raised:' + type(e).__name__)
+        if got != want:
+            raise Violation('lru-stale', f'call {ci}: view {case["views"][c["view"]]} (shape {v.shape}, strides {v.strides}) of base {c["base"]} with extra {c["extra"]!r}: cached result {got[:4]}.. {got[-1]}, the function gives {want[:4]}.. {want[-1]}; earlier calls {case["calls"][:ci]}', where='lru:stale')
+        distinct.add((c['base'], c['view']))
+        if case['regen'] and ci == len(case['calls']) // 2:
+            # drop one base and build another array (possibly at the same address): entries of the destroyed buffer must be gone
+            del a, v
+            bases[1] = None; gc.collect()
+            bases[1] = mkbase(200)
+    kinds = {case['views'][c['view']]['kind'] for c in case['calls']}
+    rec.nontrivial = len(distinct) >= 2 and not case['writeable']
+    rec.label(*('lru-view:' + k for k in kinds), 'lru:writeable' if case['writeable'] else 'lru:frozen', *(['lru:buffer-replaced'] if case['regen'] else []))
+
+
 SUBS = [Sub('pairs', pair_cases, check_pair, {'quick': 3000, 'thorough': 40000}, weight=4),
         Sub('evaluable', ev_cases, check_ev, {'quick': 300, 'thorough': 4000}, weight=1),
         Sub('interning', interning_cases, check_interning, {'quick': 600, 'thorough': 8000}, weight=1),
-        Sub('process', process_cases, check_process, {'quick': 3, 'thorough': 60}, weight=2, shrink=False, timeout=400)]
+        Sub('process', process_cases, check_process, {'quick': 3, 'thorough': 60}, weight=2, shrink=False, timeout=400),
+        Sub('lrucache', lru_cases, check_lru, {'quick': 400, 'thorough': 6000}, weight=1)]
 
 TRIGGERS = {}
 
